@@ -79,6 +79,8 @@ def calls_in(body, blocks):
 
 def run(ctx, rep):
     prog = ctx.prog
+    rep.rule("C02.f", "used-blob bookkeeping: blobs are struck off the still-needed set only for packs that stay available")
+    used_bookkeeping_rule(ctx, rep, "C02.f")
     wiring_rule(ctx, rep, "C02")
     for r, tx in (("C02.a", "typed blob identity in the used set"), ("C02.b", "used-blob walk is total and aborts on error"),
                   ("C02.c", "removal decisions require 'no used blob'"), ("C02.d", "plan/executor agreement per decision"), ("C02.e", "index removal before pack removal")):
@@ -370,3 +372,41 @@ def index_rewrite_rule(ctx, rep, R):
         rep.check(R, "filter_index_files/rewrite-table", ok, where=c.loc(),
                   what="an index file is rewritten iff one of its packs gets a decision other than Keep (or KeepMarked without instant delete)" if ok else
                        f"the decisions that force an index file to be rewritten differ from the executor's needs (predicate vs required, as (no-instant, instant)): {diff}")
+
+
+def used_bookkeeping_rule(ctx, rep, R):
+    """PrunePlan::check_existing_packs strikes a blob off `used_ids` (the blobs that still need a home; whatever is left is
+    copied by the repack step or reported) exactly for packs that stay available unmarked: to_do = Keep or Recover.
+    Evaluated per PackToDo variant by forcing every switch on `pack.to_do`: the `used_ids.remove` call is reachable for
+    Keep and Recover only. Striking them off for packs that stay marked (KeepMarked*) or go away (Delete, MarkDelete, Repack)
+    drops the last usable copy of a blob."""
+    import pathsens
+    prog = ctx.prog
+    F = prog.find1(r"^rustic_core::commands::prune::PrunePlan::check_existing_packs$")
+    fam = [F] + prog.closures_of(F)
+    rms = [(f, bb) for f in fam for bb, t in f.calls() if "callee" in t and re.search(r"(BTreeMap|BTreeSet|HashMap|HashSet)<.*>::remove$|::remove$", callee(t)) and t["args"] and op_place(t["args"][0])
+           and "used_ids" in flow.backward_slice(f, op_place(t["args"][0]))["fields"]]
+    rep.require(R, "used-ids/remove-site", len(rms) >= 1 and all(f is F for f, _ in rms), where=F.loc(), what="check_existing_packs strikes blobs off used_ids in its own body")
+    if not rms or not all(f is F for f, _ in rms):
+        return
+    adt = prog.adt("commands::prune::PackToDo")
+    table = {}
+    for v in adt["variants"]:
+        dv = str(v["discr"])
+
+        def fz(body, bb, dv=dv):
+            t = body.term(bb)
+            if t["k"] != "switch":
+                return None
+            src = [s_ for s_ in body.blocks[bb]["s"] if s_[0] == "=" and s_[1] == [op_local(t["discr"])] and s_[2][0] == "discr" and "PackToDo" in str(s_[2][2])]
+            if not src:
+                return None
+            tg = [x for vv, x in t["targets"] if vv == dv]
+            return tg[0] if tg else t["otherwise"]
+        reach = pathsens.reachable_under(F, fz)
+        table[v["name"]] = any(bb in reach for _, bb in rms)
+    want = {v["name"]: v["name"] in ("Keep", "Recover") for v in adt["variants"]}
+    ok = table == want
+    rep.check(R, "used-ids/struck-off-only-for-kept-packs", ok, where=where(F, rms[0][1]),
+              what="blobs are struck off the still-needed set exactly for packs that stay available (Keep, Recover)" if ok else
+                   f"blobs are struck off the still-needed set for {sorted(k for k, v in table.items() if v)} (must be exactly Keep and Recover): a used blob whose other copy sits in such a pack is not repacked and ends up in no index")
